@@ -357,6 +357,9 @@ func c01Check(res *Result, t *byteTable, b *stBeh, in string, want stResult, cs 
 		case "conn":
 			// Connect returning nil is C11's finding; here only a wrong non-nil end condition counts.
 			if err == nil {
+				if strictErrors {
+					fail("stream:conn:nil", "Connect(%s) returned nil after a clean end of the stream", clipBytes(in))
+				}
 				res.addNote("conn_nil_left_to_C11", 1)
 				return
 			}
@@ -375,7 +378,16 @@ func c01Check(res *Result, t *byteTable, b *stBeh, in string, want stResult, cs 
 			fail("stream:read:end", "Read(%s) ended by a read error yielded no error", clipBytes(in))
 		}
 		if err == nil && cs.entry == "conn" {
+			if strictErrors {
+				fail("stream:conn:nil", "Connect(%s) returned nil after a read error", clipBytes(in))
+			}
 			res.addNote("conn_nil_left_to_C11", 1)
+		}
+		if strictErrors && err != nil && !errors.Is(err, errBoom) {
+			fail("stream:"+cs.entry+":error-identity", "%s(%s) ended by the read error %q reported %q", cs.entry, clipBytes(in), errBoom, err)
+		}
+		if strictErrors && err != nil && errors.Is(err, sse.ErrUnexpectedEOF) {
+			fail("stream:"+cs.entry+":error-identity", "%s(%s) ended by a read error reported ErrUnexpectedEOF", cs.entry, clipBytes(in))
 		}
 	}
 }
@@ -409,13 +421,17 @@ func clipBytes(s string) string {
 	return fmt.Sprintf("%q", s)
 }
 
+var strictErrors bool
+
 func cmdStream(args []string) {
 	fs := flag.NewFlagSet("stream", flag.ExitOnError)
 	in := fs.String("in", "", "ndjson behaviours exported by Stream.tla")
 	out := fs.String("out", "", "result file")
 	table := fs.String("table", "", "token table exported by Bytes.tla")
 	pairs := fs.Int("pairs", 12, "try every pair of cut points for inputs up to this many bytes")
+	errIdent := fs.Bool("errident", false, "C11: also demand that the error reported is the reader's own / that Connect never returns nil")
 	fs.Parse(args)
+	strictErrors = *errIdent
 	t := loadTable(*table)
 	res := newResult()
 	seed := envSeed()
